@@ -927,6 +927,34 @@ where
             return out;
         }
     }
+    // and the same ranges as queries: everything whose buckets meet the query's buckets, nothing else
+    for (a, b) in ranges.iter() {
+        let range = SegRange { min: R::from_i64(*a), max: R::from_i64(*b) };
+        let t = &mut tree;
+        let (r, _, _) = lib_call(None, crate::run::INTERNAL_BUDGET, false, || {
+            let mut v: Vec<u32> = t.iter_by_range(range, 0).map(|v| v.id).collect();
+            v.sort();
+            v
+        });
+        let got = match r {
+            Ok(v) => v,
+            Err(e) => {
+                out.fail(if rc.obs(14) { 14 } else { 10 }, "range-query-panicked", 0, format!("SegExpTree::<{}> over [{}, {}]: query over [{}, {}] failed: {:?}", R::NAME, lo, hi, a, b, e));
+                return out;
+            }
+        };
+        let (qa, qb) = (lay.bucket(*a), lay.bucket(*b));
+        let mut expected: Vec<u32> = pts.iter().enumerate().filter(|(_, x)| qa <= lay.bucket(**x) && lay.bucket(**x) <= qb).map(|(j, _)| j as u32).collect();
+        expected.extend(ranges.iter().enumerate().filter(|(_, (x, y))| lay.bucket(*x) <= qb && qa <= lay.bucket(*y)).map(|(j, _)| 100_000 + j as u32));
+        expected.sort();
+        out.observations += 1;
+        if rc.obs(14) && got != expected {
+            let missing: Vec<u32> = expected.iter().copied().filter(|e| !got.contains(e)).take(4).collect();
+            let extra: Vec<u32> = got.iter().copied().filter(|e| !expected.contains(e)).take(4).collect();
+            out.fail(14, "range-query-mapping", 0, format!("SegExpTree::<{}> over [{}, {}] (bucket width {}): a query over [{}, {}] (buckets {}..{}) misses value ids {:?} and yields unexpected ids {:?} (ids < 100000 are point values at the test coordinates, the others edge-straddling ranges)", R::NAME, lo, hi, lay.width(), a, b, qa, qb, missing, extra));
+            return out;
+        }
+    }
     if rc.trace {
         out.trace.push(format!("bucket width {}, {} buckets in use, {} test points and {} edge-straddling ranges inserted and queried", lay.width(), nb, pts.len(), ranges.len()));
     }
